@@ -174,7 +174,7 @@ func ruleC13NothingOnlyWhenAbsent(c *Ctx) {
 			seen[f] = true
 			fns = append(fns, f)
 			allInstrs(f, func(i ssa.Instruction) {
-				if g := staticCallee(i); g != nil && g.Pkg != nil && g.Pkg.Pkg.Path() == m.N.Obj().Pkg().Path() && recordReturning(g) {
+				if g := staticCallee(i); g != nil && g.Pkg != nil && g.Pkg.Pkg.Path() == m.N.Obj().Pkg().Path() && (recordReturning(g) || (maybeReturning(g) && g.Blocks != nil && containsInstr(g, isDynamoRead))) {
 					add(g, depth+1)
 				}
 			})
@@ -217,6 +217,12 @@ func ruleC13NothingOnlyWhenAbsent(c *Ctx) {
 					}
 					switch x := fct.V.(type) {
 					case *ssa.Extract: // _, ok := Envelopes[…]…[…]
+						// the found flag of a checked read helper is false
+						if cv, isC := x.Tuple.(*ssa.Call); isC && !fct.True {
+							if g := staticCallee(cv); g != nil && seen[g] && g.Signature.Results().Len() == 3 && x.Index == 1 {
+								return true
+							}
+						}
 						if lk, isL := x.Tuple.(*ssa.Lookup); isL && lk.CommaOk && x.Index == 1 && !fct.True {
 							if strings.HasSuffix(accessPath(lk.X), ".Envelopes") || derivesFromEnvelopes(lk.X, 0) {
 								return true
@@ -295,7 +301,7 @@ func ruleC13NothingOnlyWhenAbsent(c *Ctx) {
 				}
 			}
 			for _, r := range returnsOf(f) {
-				if len(r.Results) != 2 || !isNilValue(returnedValue(r, 0)) || !isNilValue(returnedValue(r, 1)) {
+				if !nothingReturn(r) {
 					continue
 				}
 				c.CallSites++
@@ -1461,12 +1467,34 @@ func ruleC13LatestFirstOfOneQuery(c *Ctx) {
 		name := trimPkgDirs(shortName(f))
 		var q *ssa.Call
 		nq := 0
-		allInstrs(f, func(i ssa.Instruction) {
-			if cv, ok := i.(*ssa.Call); ok && cv.Call.IsInvoke() && strings.HasPrefix(cv.Call.Method.Name(), "Query") {
-				q = cv
-				nq++
+		findQ := func(g *ssa.Function) {
+			allInstrs(g, func(i ssa.Instruction) {
+				if cv, ok := i.(*ssa.Call); ok && cv.Call.IsInvoke() && strings.HasPrefix(cv.Call.Method.Name(), "Query") {
+					q = cv
+					nq++
+				}
+			})
+		}
+		findQ(f)
+		// the query delegated to one helper of the package, called once outside any loop
+		var qh *ssa.Function
+		var qhCall *ssa.Call
+		if nq == 0 {
+			for _, h := range readHelpersOf(f) {
+				findQ(h)
+				qh = h
 			}
-		})
+			nCalls := 0
+			allInstrs(f, func(i ssa.Instruction) {
+				if cv, ok := i.(*ssa.Call); ok && qh != nil && staticCallee(cv) == qh {
+					qhCall = cv
+					nCalls++
+				}
+			})
+			if nCalls != 1 {
+				nq = 0
+			}
+		}
 		if q == nil || nq != 1 {
 			c.bad(name+"/query", u.pos(f.Pos()), fmt.Sprintf("expected exactly one Query call in LoadLatest, found %d", nq))
 			continue
@@ -1478,6 +1506,14 @@ func ruleC13LatestFirstOfOneQuery(c *Ctx) {
 				inLoop = true
 			}
 		}
+		if qhCall != nil {
+			c.FuncsAnalysed[shortName(qh)] = true
+			for _, s := range qhCall.Block().Succs {
+				if blockReaches(s, qhCall.Block()) {
+					inLoop = true
+				}
+			}
+		}
 		// the decoded value: the argument of the decoder call whose result is returned
 		first := false
 		why := "no return decodes the query's Items[0]"
@@ -1485,6 +1521,34 @@ func ruleC13LatestFirstOfOneQuery(c *Ctx) {
 		isFirstItem := func(v ssa.Value) bool {
 			// walk: [Lookup] ← load ← IndexAddr(const 0) ← load ← FieldAddr .Items ← the output
 			for k := 0; k < 10; k++ {
+				// the item handed back by the query helper: every value it returns is Items[0] of the query
+				if ex, isE := resolve(v).(*ssa.Extract); isE && qhCall != nil && ex.Tuple == ssa.Value(qhCall) && ex.Index == 0 && k < 9 {
+					all, any := true, false
+					for _, hr := range returnsOf(qh) {
+						if len(hr.Results) == 0 || isNilValue(returnedValue(hr, 0)) {
+							continue
+						}
+						any = true
+						hv := returnedValue(hr, 0)
+						okItem := false
+						switch y := hv.(type) {
+						case *ssa.UnOp:
+							if ia, isIA := y.X.(*ssa.IndexAddr); isIA && y.Op == token.MUL {
+								if kc, isC := constOf(ia.Index); isC && kc.ExactString() == "0" && passesField(ia.X, "Items") && rootIs(rootOfPath(ia.X)) {
+									okItem = true
+								}
+							}
+						case *ssa.Index:
+							if kc, isC := constOf(y.Index); isC && kc.ExactString() == "0" && passesField(y.X, "Items") && rootIs(rootOfPath(y.X)) {
+								okItem = true
+							}
+						}
+						if !okItem {
+							all = false
+						}
+					}
+					return any && all
+				}
 				switch x := v.(type) {
 				case *ssa.Lookup:
 					v = x.X
